@@ -18,6 +18,7 @@ from ..absint import PyRaise
 from .. import markexplore as mx
 from ..markdomain import Undefined
 from ..rules_common import discarded_results
+from ..rules_markers import of_exit_shapes
 
 
 def judge(dom, J, opn, a, b, kind, r):
@@ -125,6 +126,7 @@ def run(chk):
     chk.rule("R02.1", "denotation(a op b) == denotation(a) op denotation(b) on the environment grid; is_empty/is_any consistent")
     chk.rule("R02.2", "Any/Empty identities", min_instances=8)
     chk.rule("R02.5", "evaluate() of atoms and atom groups equals the PEP 508 meaning", min_instances=50)
+    chk.rule("R02.3", "polarity facts of MultiMarker.of / MarkerUnion.of (drops only duplicate/neutral, absorbing short-circuits, right merge operator)", min_instances=2)
     chk.rule("R02.6", "no discarded side-effect-free result (expression statement that is a bare constructor/call)", min_instances=1)
     dom = mx.domain(str(chk.src))
     atoms = mx.build_atoms(dom, chk.tier)
@@ -171,6 +173,8 @@ def run(chk):
             else:
                 chk.ok("R02.5", key=(dom.show(g), val))
     chk.instance("R02.5", len(groups) * 4)
+    # R02.3 polarity facts of the rewriting layer (all paths)
+    of_exit_shapes(chk, "R02.3")
     # R02.6
     discarded_results(chk, "R02.6")
     chk.analysed = stats
